@@ -37,6 +37,7 @@ var pool struct {
 	// statistics / violations
 	gets, puts, reuses, drops int
 	doublePut, putNotOut      int
+	sharedOut                 int
 	lastGetID                 int
 }
 
@@ -79,7 +80,7 @@ func poolReset(cfg PoolCfg) {
 	}
 	pool.nknown = 0
 	pool.gets, pool.puts, pool.reuses, pool.drops = 0, 0, 0, 0
-	pool.doublePut, pool.putNotOut = 0, 0
+	pool.doublePut, pool.putNotOut, pool.sharedOut = 0, 0, 0
 }
 
 //go:norace
@@ -147,23 +148,29 @@ func poolTake() int {
 }
 
 //go:norace
-func poolGetChoose(fresh *rux.Context) (*rux.Context, int, bool) {
+func poolGetChoose() (*rux.Context, int, bool) {
 	pool.gets++
 	id := poolTake()
-	reused := id >= 0
-	var c *rux.Context
-	if reused {
-		c = pool.known[id]
-		pool.reuses++
-	} else {
-		c = fresh
-		id = poolRegister(c)
+	if id < 0 {
+		return nil, -1, false
 	}
+	pool.reuses++
+	if pool.inUse[id] {
+		pool.sharedOut++ // handed out while another request still holds it (only possible after a double Put)
+	}
+	pool.inUse[id] = true
+	pool.lastGetID = id
+	return pool.known[id], id, true
+}
+
+//go:norace
+func poolRegisterInUse(c *rux.Context) int {
+	id := poolRegister(c)
 	if id >= 0 {
 		pool.inUse[id] = true
 	}
 	pool.lastGetID = id
-	return c, id, reused
+	return id
 }
 
 // poolPutRecord returns the id and whether the object joined the free list.
@@ -181,12 +188,12 @@ func poolPutRecord(c *rux.Context, dirt int) (int, bool) {
 	}
 	for i := 0; i < pool.nfree; i++ {
 		if pool.free[i] == id {
-			pool.doublePut++ // already free: a second Put of the same object
-			return id, false
+			pool.doublePut++ // already free: a second Put of the same object (sync.Pool would hold it twice; so do we)
+			break
 		}
 	}
 	if !pool.inUse[id] {
-		pool.putNotOut++
+		pool.putNotOut++ // released although no request holds it: also a second Put, after the first copy was handed out again or not
 	}
 	pool.inUse[id] = false
 	pool.dirt[id] = dirt
@@ -203,7 +210,7 @@ func poolPutRecord(c *rux.Context, dirt int) (int, bool) {
 
 //go:norace
 func poolStats() (gets, puts, reuses, drops, doublePut int) {
-	return pool.gets, pool.puts, pool.reuses, pool.drops, pool.doublePut
+	return pool.gets, pool.puts, pool.reuses, pool.drops, pool.doublePut + pool.putNotOut + pool.sharedOut
 }
 
 //go:norace
@@ -224,27 +231,31 @@ func poolFreeSnapshot(buf *[16]int) int {
 // hook bodies (instrumented on purpose: the atomic cells are the only
 // synchronisation the pool contributes)
 
-func hookPoolGet(r *rux.Router, fresh *rux.Context) *rux.Context {
+func hookPoolGet(newFn func() any) any {
 	if !poolOn() {
-		return fresh
+		return newFn() // outside a simulated run (solo twins): every request gets a fresh context
 	}
-	c, id, reused := poolGetChoose(fresh)
+	c, id, reused := poolGetChoose()
+	if !reused {
+		c = newFn().(*rux.Context)
+		id = poolRegisterInUse(c)
+	}
 	if reused && id >= 0 {
 		atomic.LoadUint32(&poolCells[id]) // acquire: pairs with the Put that released this object
 	}
 	return c
 }
 
-func hookPoolPut(r *rux.Router, c *rux.Context) *rux.Context {
-	if !poolOn() {
-		return c
+func hookPoolPut(x any) {
+	c, ok := x.(*rux.Context)
+	if !ok || c == nil || !poolOn() {
+		return
 	}
 	d := dirtiness(c)
 	id, _ := poolPutRecord(c, d)
 	if id >= 0 {
 		atomic.StoreUint32(&poolCells[id], 1) // release
 	}
-	return r.VerifNewContext() // what the real pool receives instead
 }
 
 // dirtiness scores what a finished request left behind in its context (public API only).
